@@ -25,8 +25,11 @@ func zzCountTasks(g *Graph) int {
 // second, surviving writer; then a reader again. The world invariant (only the LAST line may be
 // incomplete) is assumed at the start and asserted at the end, so the step covers any number of
 // crash / write rounds.
-func zzC03_CrashThenAppend() {
-	root := zzFSInit("1;winv=1;Results=0")
+func zzC03_CrashThenAppend()   { zzC03CrashThenAppend("1;winv=1;Results=0") }
+func zzC03_CrashThenAppend_2() { zzC03CrashThenAppend("2;winv=1;Results=0") }
+
+func zzC03CrashThenAppend(spec string) {
+	root := zzFSInit(spec)
 	opts, dir := zzFSOpts(root)
 	logPath := getEventsPath(dir)
 	_, tail0, _ := zzLogShape(logPath)
